@@ -9,6 +9,7 @@ package main
 //     Coq model (Response.v) can be evaluated on the same input.
 
 import (
+	"strconv"
 	"fmt"
 	"sort"
 	"strings"
@@ -316,7 +317,7 @@ func strEq(p *string, q *types.NameID) bool {
 
 // matchesSpec: is the returned assertion field-for-field what the generator put into spec s?
 func matchesSpec(a *types.Assertion, s *AssertionSpec) bool {
-	if a.ID != s.ID {
+	if a.ID != s.ID || a.Version != "2.0" || !a.IssueInstant.Equal(specIssueInstant) {
 		return false
 	}
 	if (a.Issuer == nil) != (s.Issuer == nil) || (a.Issuer != nil && a.Issuer.Value != *s.Issuer) {
@@ -343,7 +344,7 @@ func matchesSpec(a *types.Assertion, s *AssertionSpec) bool {
 				if noa == "\x00" {
 					noa = ""
 				}
-				if d.Recipient != s.Recipient || d.NotOnOrAfter != noa {
+				if d.Recipient != s.Recipient || d.NotOnOrAfter != noa || d.InResponseTo != "_req1" {
 					return false
 				}
 			}
@@ -361,6 +362,20 @@ func matchesSpec(a *types.Assertion, s *AssertionSpec) bool {
 		}
 		if c.NotBefore != z(s.NB) || c.NotOnOrAfter != z(s.CondNOA) || len(c.AudienceRestrictions) != len(s.Audiences) || (c.OneTimeUse != nil) != s.OneTimeUse || (c.ProxyRestriction != nil) != (s.Proxy != nil) {
 			return false
+		}
+		if p := c.ProxyRestriction; p != nil {
+			want := 0
+			if s.Proxy.Count != "\x00" {
+				want, _ = strconv.Atoi(s.Proxy.Count)
+			}
+			if p.Count != want || len(p.Audience) != len(s.Proxy.Audiences) {
+				return false
+			}
+			for i, x := range p.Audience {
+				if x.Value != s.Proxy.Audiences[i] {
+					return false
+				}
+			}
 		}
 		for i, r := range c.AudienceRestrictions {
 			if len(r.Audiences) != len(s.Audiences[i]) {
@@ -404,7 +419,101 @@ func matchesSpec(a *types.Assertion, s *AssertionSpec) bool {
 			return false
 		}
 	}
+	if (s.SessionNOA != "") != (a.AuthnStatement.SessionNotOnOrAfter != nil) {
+		return false
+	}
+	if s.SessionNOA != "" {
+		t, err := time.Parse(time.RFC3339, s.SessionNOA)
+		if err != nil || !t.Equal(*a.AuthnStatement.SessionNotOnOrAfter) {
+			return false
+		}
+	}
+	if ac := a.AuthnStatement.AuthnContext; ac == nil || ac.AuthnContextClassRef == nil ||
+		ac.AuthnContextClassRef.Value != "urn:oasis:names:tc:SAML:2.0:ac:classes:PasswordProtectedTransport" {
+		return false
+	}
 	return true
+}
+
+var specIssueInstant = time.Date(2024, 5, 17, 10, 29, 0, 0, time.UTC)
+
+// infoMatchesSpec: does the AssertionInfo summarise the FIRST signed assertion exactly (C06 / C08)?
+func infoMatchesSpec(info *saml2.AssertionInfo, s *AssertionSpec, now time.Time) string {
+	if info.SessionIndex != s.SessionIndex {
+		return "SessionIndex"
+	}
+	if (s.AuthnInstant != "") != (info.AuthnInstant != nil) || (s.SessionNOA != "") != (info.SessionNotOnOrAfter != nil) {
+		return "AuthnInstant/SessionNotOnOrAfter presence"
+	}
+	if s.SessionNOA != "" {
+		if t, err := time.Parse(time.RFC3339, s.SessionNOA); err != nil || !t.Equal(*info.SessionNotOnOrAfter) {
+			return "SessionNotOnOrAfter"
+		}
+	}
+	w := info.WarningInfo
+	if w == nil {
+		return "WarningInfo nil"
+	}
+	if w.OneTimeUse != s.OneTimeUse {
+		return "WarningInfo.OneTimeUse"
+	}
+	if (w.ProxyRestriction != nil) != (s.Proxy != nil) {
+		return "WarningInfo.ProxyRestriction presence"
+	}
+	if s.Proxy != nil {
+		want := 0
+		if s.Proxy.Count != "\x00" {
+			want, _ = strconv.Atoi(s.Proxy.Count)
+		}
+		if w.ProxyRestriction.Count != want || len(w.ProxyRestriction.Audience) != len(s.Proxy.Audiences) {
+			return "WarningInfo.ProxyRestriction"
+		}
+		for i, x := range w.ProxyRestriction.Audience {
+			if x != s.Proxy.Audiences[i] {
+				return "WarningInfo.ProxyRestriction.Audience"
+			}
+		}
+	}
+	notIn := false
+	for _, r := range s.Audiences {
+		m := false
+		for _, x := range r {
+			if x == audURI {
+				m = true
+			}
+		}
+		if !m {
+			notIn = true
+		}
+	}
+	if w.NotInAudience != notIn {
+		return "WarningInfo.NotInAudience"
+	}
+	// attribute map: keyed by Name, a later attribute of the same Name replaces an earlier one
+	if !s.NoAttrStmt {
+		last := map[string]AttrSpec{}
+		for _, at := range s.Attrs {
+			last[at.Name] = at
+		}
+		if len(info.Values) != len(last) {
+			return "Values size"
+		}
+		for name, at := range last {
+			got := info.Values.GetAll(name)
+			if len(got) != len(at.Values) || info.Values.GetSize(name) != len(at.Values) {
+				return "Values[" + name + "] size"
+			}
+			for i, v := range at.Values {
+				if got[i] != v {
+					return "Values[" + name + "]"
+				}
+			}
+			if len(at.Values) > 0 && info.Values.Get(name) != at.Values[0] {
+				return "Values.Get(" + name + ")"
+			}
+		}
+	}
+	return ""
 }
 
 // ---------- attacker edits ----------
@@ -1143,10 +1252,18 @@ func runOneResponse(c *Ctx, cs *CaseSet, rc *respCase, respSigOK bool, profileFa
 					}
 				}
 			}
+			if resp.ID != rc.rs.ID || resp.InResponseTo != rc.rs.InResponseTo || resp.Destination != rc.rs.Destination || resp.Version != rc.rs.Version ||
+				!resp.IssueInstant.Equal(specIssueInstant) || resp.Issuer == nil || rc.rs.Issuer == nil || resp.Issuer.Value != *rc.rs.Issuer ||
+				resp.Status == nil || resp.Status.StatusCode == nil || rc.rs.StatusCode == nil || resp.Status.StatusCode.Value != *rc.rs.StatusCode {
+				c.Violate("spec", "genuine:response-fields", "genuine Response: ID / InResponseTo / Destination / Version / IssueInstant / Issuer / StatusCode not reproduced", replay)
+			}
 			if err2 == nil {
 				first := rc.rs.Assertions[0]
 				if first.NameID != nil && info.NameID != *first.NameID {
 					c.Violate("spec", "genuine:info-nameid", fmt.Sprintf("AssertionInfo.NameID %q, signed %q", info.NameID, *first.NameID), replay)
+				}
+				if what := infoMatchesSpec(info, first, rc.now); what != "" {
+					c.Violate("spec", "genuine:info-fields", "AssertionInfo does not summarise the first signed assertion: "+what, replay)
 				}
 			}
 		}
